@@ -112,3 +112,107 @@ fn c10_store_scan_reports_any_leaking_entry() {
     st.check_for_leaks();
     crate::must_not_reach!("C10.store.scan_returns_although_an_entry_leaks");
 }
+
+// ================================================================================================
+// C01.dep / C01.cover: the per-object "last dependent access" summaries, through the store dispatch
+// ================================================================================================
+
+/// Semantic dependence between two actions on the same object (do the two operations commute?):
+/// what POR may assume independent.  Codes as in `action_code`.
+fn dependent(kind: u8, a: u8, b: u8) -> bool {
+    match kind {
+        // mutex / condvar / notify: every pair of operations on the object is dependent
+        0 | 1 | 2 => true,
+        // rwlock: two reads commute, anything involving a write does not
+        3 => !(a == 40 && b == 40),
+        // channel: sends are ordered among themselves (FIFO), receives among themselves, and a
+        // receive (or emptiness test) does not commute with a send
+        4 => true,
+        // arc: increments commute with increments and decrements; inspections (strong_count) and
+        // uniqueness tests (get_mut = RefDec class) do not commute with modifications
+        5 => !((a == 20 && b == 20) || (a == 20 && b == 21) || (a == 21 && b == 20) || (a == 22 && b == 22)),
+        _ => true,
+    }
+}
+
+fn store_with(kind: u8) -> Store {
+    let mut st: Store = Store::with_capacity(2);
+    match kind {
+        0 => { st.entries.push(Entry::Mutex(rt::mutex::verif_kani::unlocked_mutex_state())); }
+        1 => { st.entries.push(Entry::Condvar(rt::condvar::verif_kani::empty_condvar_state())); }
+        2 => { st.entries.push(Entry::Notify(rt::notify::verif_kani::any_notify_state_no_access())); }
+        3 => { st.entries.push(Entry::RwLock(rt::rwlock::verif_kani::free_rwlock_state())); }
+        4 => { st.entries.push(Entry::Channel(rt::mpsc::verif_kani::chan_state_with(0))); }
+        _ => { st.entries.push(Entry::Arc(rt::arc::verif_kani::any_arc_state())); }
+    }
+    st
+}
+
+fn action_for(kind: u8, c: u8) -> Action {
+    match (kind, c) {
+        (3, 0) => Action::RwLock(rt::rwlock::Action::Read),
+        (3, _) => Action::RwLock(rt::rwlock::Action::Write),
+        (4, 0) => Action::Channel(rt::mpsc::Action::MsgSend),
+        (4, _) => Action::Channel(rt::mpsc::Action::MsgRecv),
+        (5, 0) => Action::Arc(rt::arc::Action::RefInc),
+        (5, 1) => Action::Arc(rt::arc::Action::RefDec),
+        (5, _) => Action::Arc(rt::arc::Action::Inspect),
+        _ => Action::Opaque,
+    }
+}
+
+/// One recorded access `h` followed by a pending operation `op`: if the two are dependent, the
+/// store must hand `h` (same path position, same clock) to the race check of `schedule`.
+fn dependence_body(kind: u8, region: u8) {
+    let mut st = store_with(kind);
+    let (ca, cb): (u8, u8) = (kani::any(), kani::any());
+    kani::assume(ca < 3 && cb < 3);
+    let (a, b) = (action_for(kind, ca), action_for(kind, cb));
+    let (xa, xb) = (action_code(&a), action_code(&b));
+    // finding regions (known gaps of the summaries): F4c channel send<->recv, F4b arc RefDec-class after Inspect
+    let in_f4c = kind == 4 && xa != xb;
+    let in_f4b = kind == 5 && xa == 22 && xb == 21;
+    match region {
+        0 => kani::assume(!in_f4c && !in_f4b),
+        1 => kani::assume(in_f4c),
+        _ => kani::assume(in_f4b),
+    }
+    let v = crate::rt::vv::verif_kani::any_vv();
+    let p: usize = kani::any();
+    st.set_last_access(mk_op(0, a), p, &v);
+    let got = st.last_dependent_access(mk_op(0, b)).map(|x| rt::access::verif_kani::access_parts(x));
+    if dependent(kind, xa, xb) {
+        oblige!("C01.dep.recorded_access_is_offered_to_every_dependent_later_operation",
+            got.map(|(q, w)| q == p && crate::rt::vv::verif_kani::eq(&w, &v)) == Some(true));
+    }
+    std::mem::forget(st);
+    reach!("c01_store_dependence");
+}
+
+//@ props=C01,C07,C08,C09,C11 tier=quick fns=src/rt/object.rs::Store::last_dependent_access,src/rt/object.rs::Store::set_last_access,src/rt/mutex.rs::State::set_last_access,src/rt/rwlock.rs::State::set_last_access,src/rt/condvar.rs::State::set_last_access,src/rt/notify.rs::State::set_last_access,src/rt/mpsc.rs::State::set_last_access,src/rt/arc.rs::State::set_last_access
+#[kani::proof]
+#[kani::unwind(7)]
+fn c01_store_dependence__outside() {
+    match kani::any::<u8>() {
+        0 => dependence_body(0, 0),
+        1 => dependence_body(1, 0),
+        2 => dependence_body(2, 0),
+        3 => dependence_body(3, 0),
+        4 => dependence_body(4, 0),
+        _ => dependence_body(5, 0),
+    }
+}
+
+//@ props=C01,C09 tier=quick fns=src/rt/mpsc.rs::State::last_dependent_access,src/rt/mpsc.rs::State::set_last_access finding=F4c expect=C01.dep.recorded_access_is_offered_to_every_dependent_later_operation
+#[kani::proof]
+#[kani::unwind(7)]
+fn c01_store_dependence__inside_channel_send_recv() {
+    dependence_body(4, 1);
+}
+
+//@ props=C01,C11 tier=quick fns=src/rt/arc.rs::State::last_dependent_access,src/rt/arc.rs::State::set_last_access finding=F4b expect=C01.dep.recorded_access_is_offered_to_every_dependent_later_operation
+#[kani::proof]
+#[kani::unwind(7)]
+fn c01_store_dependence__inside_arc_dec_after_inspect() {
+    dependence_body(5, 2);
+}
